@@ -486,6 +486,21 @@ Qed.
 (* ================= round 3: the new operations ================= *)
 
 (* ---------- get_neighborhood_mask as an operation of the model (it runs the translated body) ---------- *)
+Lemma nbhd_mask_gen_eq3 dims nb m :
+  (gen_nbhd_mask_d dims nb = GOk m \/ gen_nbhd_mask_l dims nb = GOk m \/ gen_nbhd_mask_h dims nb = GOk m) ->
+  m = fmask (fun k => existsb (coord_eqb k) nb) (all_coords dims).
+Proof.
+  intros H.
+  assert (g_set_many (g_zeros dims) nb = fmask (fun k => existsb (coord_eqb k) nb) (all_coords dims)) as Hs.
+  { unfold g_set_many, g_zeros, fmask. rewrite g_all_coords_eq, map_map. reflexivity. }
+  assert (nb = [] -> g_zeros dims = fmask (fun k => existsb (coord_eqb k) nb) (all_coords dims)) as Hz.
+  { intros ->. unfold g_zeros, fmask. rewrite g_all_coords_eq. reflexivity. }
+  unfold gen_nbhd_mask_h in H. unfold gen_nbhd_mask_d, gen_nbhd_mask_l in H. cbv zeta in H.
+  repeat match type of H with context [if ?c then _ else _] => destruct c eqn:? end;
+    destruct H as [H|[H|H]]; inversion H; subst;
+    first [exact Hs | apply Hz; destruct nb; [reflexivity|simpl in *; exfalso; lia]].
+Qed.
+
 Lemma nbhd_mask_gen_eq dims nb m :
   (gen_nbhd_mask_d dims nb = GOk m \/ gen_nbhd_mask_l dims nb = GOk m) ->
   m = fmask (fun k => existsb (coord_eqb k) nb) (all_coords dims).
@@ -506,6 +521,19 @@ Lemma gen_nbhd_mask_total dims nb :
 Proof.
   unfold gen_nbhd_mask_d, gen_nbhd_mask_l. cbv zeta.
   split; repeat match goal with |- context [if ?c then _ else _] => destruct c end; eauto.
+Qed.
+
+(* legacy hex grids (fix C11-5): whether _HexGrid has its own get_neighborhood_mask or inherits _PropertyGrid's, the
+   translated body computes what the orthogonal legacy grids' does - which is what the model runs for every legacy grid *)
+Lemma nbhd_mask_hex_agrees dims nb : gen_nbhd_mask_h dims nb = gen_nbhd_mask_l dims nb.
+Proof.
+  destruct (gen_nbhd_mask_total dims nb) as [_ [m2 H2]].
+  assert (exists m, gen_nbhd_mask_h dims nb = GOk m) as [m3 H3].
+  { unfold gen_nbhd_mask_h. unfold gen_nbhd_mask_l. cbv zeta.
+    repeat match goal with |- context [if ?c then _ else _] => destruct c end; eauto. }
+  rewrite H2, H3. f_equal.
+  rewrite (nbhd_mask_gen_eq3 dims nb m3 (or_intror (or_intror H3))).
+  rewrite (nbhd_mask_gen_eq3 dims nb m2 (or_intror (or_introl H2))). reflexivity.
 Qed.
 
 (* whatever neighbourhood the grid reports (all of it inside the grid): the mask covers the grid in
@@ -569,4 +597,19 @@ Proof.
   intros H1 H2. unfold admissible, dtype_result, DT_TYPEERROR, DT_VALUE_DEPENDENT.
   destruct f, fm; try (split; [reflexivity|intros; reflexivity]);
     repeat match goal with |- context [if ?c then _ else _] => destruct c eqn:? end; split; intros; try lia; try reflexivity.
+Qed.
+
+(* ---------- PropertyLayer.select_cells (one layer, one condition) ---------- *)
+Lemma layer_select_exact st r cd id L :
+  resolve st r = Some id -> get_obj st id = Some L ->
+  let m := map (fun kx : coord * Z => (fst kx, eval_cond cd (snd kx))) (l_data L) in
+  (forall aslist, step st (LayerSelect r cd aslist) = (st, ROk (select_obs m aslist))) /\
+  map fst m = akeys (l_data L) /\
+  forall c, In c (mask_list m) <-> exists x, In (c, x) (l_data L) /\ eval_cond cd x = true.
+Proof.
+  intros Hr HL m. split; [intros aslist; simpl; rewrite Hr, HL; reflexivity|].
+  split; [unfold m, akeys; rewrite map_map; reflexivity|].
+  intros c. rewrite (proj2 (list_mask_same m) c). unfold m. rewrite in_map_iff. split.
+  - intros [[k x] [Heq Hin]]. simpl in Heq. inversion Heq; subst. exists x. auto.
+  - intros [x [Hin Hc]]. exists (c, x). simpl. rewrite Hc. auto.
 Qed.
